@@ -51,6 +51,101 @@ Lemma nan_unordered x : flt FNaN x = false /\ flt x FNaN = false /\ fle FNaN x =
 Proof. destruct x; repeat split; reflexivity. Qed.
 
 (* ---------------------------------------------------------------------------------------- *)
+(* The ordinal order IS the order of the represented real numbers: [val149 z] is the exact value
+   of the finite binary32 number with ordinal z in units of 2^-149, and it is strictly monotone. *)
+Section OrdinalOrder.
+Local Open Scope Z_scope.
+Definition mag149 (m : Z) : Z :=
+  let e := m / P23 in let f := m mod P23 in
+  if e =? 0 then f else (P23 + f) * 2 ^ (e - 1).
+
+Lemma val149_mag z : val149 z = if z <? 0 then - mag149 (- z) else mag149 z.
+Proof.
+  unfold val149, mag149. destruct (Z.ltb_spec z 0) as [H|H].
+  - rewrite Z.abs_neq by lia. reflexivity.
+  - rewrite Z.abs_eq by lia. reflexivity.
+Qed.
+
+Lemma mag149_step m : 0 <= m -> mag149 m < mag149 (m + 1).
+Proof.
+  intro Hm. unfold mag149.
+  assert (HP : P23 = 8388608) by reflexivity.
+  pose proof (Z.div_mod m P23 ltac:(rewrite HP; lia)) as Hdm.
+  pose proof (Z.mod_pos_bound m P23 ltac:(rewrite HP; lia)) as Hf.
+  assert (He : 0 <= m / P23) by (apply Z.div_pos; rewrite ?HP; lia).
+  set (e := m / P23) in *. set (f := m mod P23) in *.
+  destruct (Z.eq_dec (f + 1) P23) as [Hc|Hc].
+  - assert (E1 : (m + 1) / P23 = e + 1).
+    { symmetry. apply (Z.div_unique (m + 1) P23 (e + 1) 0); lia. }
+    assert (E2 : (m + 1) mod P23 = 0).
+    { symmetry. apply (Z.mod_unique (m + 1) P23 (e + 1) 0); lia. }
+    rewrite E1, E2. destruct (Z.eqb_spec (e + 1) 0) as [H0|_]; [lia|].
+    replace (e + 1 - 1) with e by lia. rewrite Z.add_0_r.
+    destruct (Z.eqb_spec e 0) as [->|Hne].
+    + rewrite Z.pow_0_r. lia.
+    + replace e with (Z.succ (e - 1)) at 2 by lia. rewrite Z.pow_succ_r by lia.
+      assert (0 < 2 ^ (e - 1)) by (apply Z.pow_pos_nonneg; lia). nia.
+  - assert (E1 : (m + 1) / P23 = e).
+    { symmetry. apply (Z.div_unique (m + 1) P23 e (f + 1)); lia. }
+    assert (E2 : (m + 1) mod P23 = f + 1).
+    { symmetry. apply (Z.mod_unique (m + 1) P23 e (f + 1)); lia. }
+    rewrite E1, E2. destruct (Z.eqb_spec e 0) as [_|Hne]; [lia|].
+    assert (0 < 2 ^ (e - 1)) by (apply Z.pow_pos_nonneg; lia). nia.
+Qed.
+
+Lemma mag149_mono a b : 0 <= a < b -> mag149 a < mag149 b.
+Proof.
+  intros [Ha Hab].
+  assert (H : forall n : nat, mag149 a < mag149 (a + 1 + Z.of_nat n)).
+  { induction n as [|n IH].
+    - rewrite Z.add_0_r. apply mag149_step. exact Ha.
+    - eapply Z.lt_trans; [exact IH|].
+      replace (a + 1 + Z.of_nat (S n)) with (a + 1 + Z.of_nat n + 1) by lia.
+      apply mag149_step. lia. }
+  specialize (H (Z.to_nat (b - a - 1))). rewrite Z2Nat.id in H by lia.
+  replace (a + 1 + (b - a - 1)) with b in H by lia. exact H.
+Qed.
+
+Lemma mag149_0 : mag149 0 = 0.  Proof. reflexivity. Qed.
+
+(* the ordinal order IS the order of the represented real numbers *)
+Lemma val149_mono a b : a < b -> val149 a < val149 b.
+Proof.
+  intro Hab. rewrite !val149_mag.
+  destruct (Z.ltb_spec a 0) as [Ha|Ha], (Z.ltb_spec b 0) as [Hb|Hb].
+  - assert (mag149 (- b) < mag149 (- a)) by (apply mag149_mono; lia). lia.
+  - assert (0 < mag149 (- a)) by (rewrite <- mag149_0; apply mag149_mono; lia).
+    assert (0 <= mag149 b).
+    { destruct (Z.eq_dec b 0) as [->|Hn]; [rewrite mag149_0; lia|].
+      assert (mag149 0 < mag149 b) by (apply mag149_mono; lia). rewrite mag149_0 in *. lia. }
+    lia.
+  - lia.
+  - apply mag149_mono. lia.
+Qed.
+
+Lemma ordinal_order a b :
+  (a < b <-> val149 a < val149 b) /\ (a <= b <-> val149 a <= val149 b) /\ (a = b <-> val149 a = val149 b).
+Proof.
+  assert (M := val149_mono).
+  repeat split; intro H.
+  - apply M; exact H.
+  - destruct (Z.lt_ge_cases a b) as [L|L]; [exact L|]. exfalso.
+    destruct (Z.eq_dec a b) as [->|Hn]; [lia|]. assert (val149 b < val149 a) by (apply M; lia). lia.
+  - destruct (Z.eq_dec a b) as [->|Hn]; [lia|]. assert (val149 a < val149 b) by (apply M; lia). lia.
+  - destruct (Z.le_gt_cases a b) as [L|L]; [exact L|]. exfalso. assert (val149 b < val149 a) by (apply M; lia). lia.
+  - subst; reflexivity.
+  - destruct (Z.lt_trichotomy a b) as [L|[L|L]]; [|exact L|]; exfalso.
+    + assert (val149 a < val149 b) by (apply M; lia). lia.
+    + assert (val149 b < val149 a) by (apply M; lia). lia.
+Qed.
+
+Lemma val149_landmarks :
+  val149 0 = 0 /\ val149 ONE_ORD = 2 ^ 149 /\ val149 1 = 1 /\
+  val149 (INF_ORD - 1) = 2 ^ 277 - 2 ^ 253 /\ val149 GUMBEL_UP_ORD = 2 ^ 149 - 2 ^ 126.
+Proof. vm_compute. repeat split; reflexivity. Qed.
+End OrdinalOrder.
+
+(* ---------------------------------------------------------------------------------------- *)
 (* validation *)
 Lemma fge_ord a b : fge (FOrd a) (FOrd b) = true <-> (b <= a)%Z.
 Proof. unfold fge. apply fle_ord. Qed.
